@@ -144,7 +144,8 @@ def run_case(case, tier):
             if r.san:
                 rep = r.san[0]
                 viol.append(dict(key="C09|sanitizer|%s|%s" % (rep["kind"], rep["frame"]), what="%s: %s" % (tag, rep["line"])))
-                continue
+                if not r.ok or not str(rep["kind"]).startswith("ubsan"):
+                    continue        # a recoverable UBSan report (run completed) does not stop the output comparison
             if not r.ok:
                 viol.append(dict(key="C09|crash", what="multi-threaded decode crashed / did not complete (%s): exit %s %s" % (tag, r.exit, r.err[-300:].replace("\n", " | "))))
                 continue
